@@ -9,6 +9,7 @@ import (
 	"compress/zlib"
 	"encoding/binary"
 	"io"
+	"runtime"
 	"sort"
 	"strings"
 
@@ -209,6 +210,21 @@ func readAll(wire []byte, withOff bool) hv.Val {
 	return out
 }
 
+// allocOver runs f and reports 1 iff the Go heap allocated more than 1 MB + 8 x supplied bytes meanwhile
+// (runtime.MemStats.TotalAlloc counts every heap allocation, freed or not; the harness is single-threaded).
+// Generous constants: the correct parser stays far below, a parser that sizes buffers from a peer-declared
+// length is far above for the declared lengths generated (>= 16 MB with at most a few KB supplied).
+func allocOver(supplied int, f func() hv.Val) (int, hv.Val) {
+	var a, b runtime.MemStats
+	runtime.ReadMemStats(&a)
+	v := f()
+	runtime.ReadMemStats(&b)
+	if b.TotalAlloc-a.TotalAlloc > 1<<20+8*uint64(supplied) {
+		return 1, v
+	}
+	return 0, v
+}
+
 func impl(in hv.Val) hv.Val {
 	l := hv.AsList(in)
 	switch hv.AsInt(l[0]) {
@@ -232,6 +248,15 @@ func impl(in hv.Val) hv.Val {
 		return readAll(buf.Bytes(), false)
 	case 4:
 		return readAll(hv.AsBytes(l[1]), true)
+	case 8:
+		w := hv.AsBytes(l[1])
+		over, v := allocOver(len(w), func() hv.Val { return readAll(w, true) })
+		return hv.L{hv.I(over), v}
+	case 9:
+		b := hv.AsBytes(l[2])
+		sid := uint32(hv.AsInt(l[1]))
+		over, v := allocOver(len(b), func() hv.Val { return parsePlain(b, sid) })
+		return hv.L{hv.I(over), v}
 	case 5: // compact DATA round trip
 		n := int(hv.AsInt(l[3]))
 		if n < 0 || n > 1<<24+16 {
@@ -786,9 +811,68 @@ var boundary = []struct {
 	{"len-hdr-over", hv.L{hv.I(6), hv.I(2), hv.I(0), hv.I(5), hv.I(1 << 24)}},
 }
 
+// a peer-declared length far beyond the bytes supplied: count 1, then either the name or the value
+// declares `decl` bytes and only `have` follow
+var bigDecl = []int{1 << 24, 1 << 26, 1<<26 + 1, 1 << 28, 1 << 30, 1<<31 - 1, 1 << 31, 1<<32 - 1}
+
+func hugeBlock(r *hv.Rng) []byte {
+	decl := uint32(pickInt(r, bigDecl))
+	have := pickInt(r, []int{0, 1, 2, 100, 4095, 4096, 4097, 9000})
+	var bb bytes.Buffer
+	binary.Write(&bb, binary.BigEndian, uint32(1))
+	if r.Bool() { // the value is the huge one
+		binary.Write(&bb, binary.BigEndian, uint32(1))
+		bb.WriteByte('v')
+	}
+	binary.Write(&bb, binary.BigEndian, decl)
+	bb.Write(bytes.Repeat([]byte{'q'}, have))
+	return bb.Bytes()
+}
+
+// genAlloc: operation 9 (plain block) and 8 (a 30..60-byte header frame through real zlib) with huge declared lengths,
+// plus ordinary blocks / wires so that the verdict is also exercised where real data is large
+func genAlloc(r *hv.Rng) (string, hv.Val) {
+	switch r.Intn(5) {
+	case 0:
+		_, v := genBlock(r)
+		l := hv.AsList(v)
+		return "alloc-blk", hv.L{hv.I(9), l[1], l[2]}
+	case 1:
+		_, v := genWire(r)
+		l := hv.AsList(v)
+		return "alloc-wire", hv.L{hv.I(8), l[1], l[2]}
+	case 2, 3:
+		return "alloc-huge-blk", hv.L{hv.I(9), hv.I(1), hv.B(hugeBlock(r))}
+	default:
+		plain := hugeBlock(r)
+		var comp bytes.Buffer
+		zw, err := zlib.NewWriterLevelDict(&comp, zlib.BestCompression, spdy.VerifHeaderDictionary())
+		if err != nil {
+			panic(err)
+		}
+		zw.Write(plain)
+		zw.Flush()
+		kind := pickInt(r, []int{1, 2, 8})
+		fixed := []byte{0, 0, 0, 5}
+		if kind == 1 {
+			fixed = []byte{0, 0, 0, 5, 0, 0, 0, 0, 0x40, 0}
+		}
+		ln := len(fixed) + comp.Len()
+		wire := []byte{0x80, 3, 0, byte(kind), byte(r.Intn(2)), byte(ln >> 16), byte(ln >> 8), byte(ln)}
+		wire = append(wire, fixed...)
+		off := len(wire)
+		wire = append(wire, comp.Bytes()...)
+		wire = append(wire, 0x80, 3, 0, 6, 0, 0, 0, 4, 0, 0, 0, 9) // a PING after it
+		return "alloc-huge-frame", hv.L{hv.I(8), hv.B(wire), hv.L{hv.L{hv.I(0), hv.I(off), hv.I(comp.Len()), hv.B(plain)}}}
+	}
+}
+
 func gen(r *hv.Rng, i int, tier string) (string, hv.Val) {
 	if i < len(boundary) {
 		return boundary[i].class, boundary[i].in
+	}
+	if i%20 == 13 { // allocation verdict cases
+		return genAlloc(r)
 	}
 	if i%50 == 7 { // random compact cases; a few per run at the 2^24 boundary
 		switch r.Intn(3) {
